@@ -280,6 +280,92 @@ func c08FlateBomb(r *kit.Rand, size int, layers int) []byte {
 // sequences (table full without a clear code, repeated newest codes, codes
 // beyond the table) reach the decoder's table logic instead of failing at the
 // first width mismatch.
+// c08CCITTCodes assembles two-dimensional (T.6) rows of cols pixels code by
+// code: rows made of very many short codes above reference lines with few or
+// many changing elements, and all-white rows in between.
+func c08CCITTCodes(r *kit.Rand, cols int) []byte {
+	var out []byte
+	var acc uint64
+	nbits := 0
+	put := func(bits string) {
+		for _, ch := range bits {
+			acc = acc<<1 | uint64(ch-'0')
+			nbits++
+			if nbits == 8 {
+				out = append(out, byte(acc))
+				acc, nbits = 0, 0
+			}
+		}
+	}
+	const (
+		horiz  = "001"
+		w1     = "000111"       // white run 1
+		b1     = "010"          // black run 1
+		w0     = "00110101"     // white run 0
+		b0     = "0000110111"   // black run 0
+		ext    = "000000011111" // make-up 2560, either colour
+		v0     = "1"
+		pass   = "0001"
+		wm1536 = "010011001"
+		wm512  = "01100101"
+		wm1728 = "010011011"
+		wm2048 = "00000001000" // 1792+256? no: 2048 is an extended make-up code
+	)
+	_ = wm1728
+	_ = wm2048
+	whiteRow := func() {
+		put(horiz)
+		n := cols
+		for n >= 2560 {
+			put(ext)
+			n -= 2560
+		}
+		switch n {
+		case 1536:
+			put(wm1536)
+		case 512:
+			put(wm512)
+		case 2048: // 32768 = 12 x 2560 + 2048
+			put("000000010011")
+		}
+		put(w0)
+		put(b0)
+	}
+	pairsRow := func() {
+		for x := 0; x < cols; x += 2 {
+			put(horiz)
+			put(w1)
+			put(b1)
+		}
+	}
+	rows := 4 + r.Intn(6)
+	style := r.Intn(3)
+	for i := 0; i < rows; i++ {
+		switch {
+		case style == 0 && i%2 == 0, style == 1 && i == 0:
+			pairsRow() // reference line without changing elements
+		case style == 0:
+			whiteRow()
+		case style == 1:
+			for x := 0; x < cols; x++ {
+				put(v0) // copy the alternating line: one code per pixel
+			}
+		default:
+			if r.Bool() {
+				pairsRow()
+			} else {
+				for x := 0; x < cols/2; x++ {
+					put(kit.Pick(r, []string{v0, pass, horiz + w1 + b1}))
+				}
+			}
+		}
+	}
+	if nbits > 0 {
+		out = append(out, byte(acc<<uint(8-nbits)))
+	}
+	return out
+}
+
 func c08LZWCodes(r *kit.Rand, early int) []byte {
 	var out []byte
 	var acc uint32
@@ -511,6 +597,13 @@ func c08Gen(r *kit.Rand, seeds []c08Seed, quick bool) c08Case {
 			cs.body = b
 			cs.chain = []string{s.filter}
 		}
+	case k < 18 && r.Chance(1, 3):
+		cs.class = "ccitt-code-level"
+		cols := kit.Pick(r, []int{1 << 15, 1 << 16, 1 << 17})
+		cs.dict["Filter"] = pdf.Name("CCITTFaxDecode")
+		cs.dict["DecodeParms"] = pdf.Dict{"K": pdf.Integer(kit.Pick(r, []int{-1, -1, 4})), "Columns": pdf.Integer(cols), "BlackIs1": pdf.Boolean(r.Bool())}
+		cs.body = c08CCITTCodes(r, cols)
+		cs.chain = []string{"CCITTFaxDecode"}
 	case k < 18 && r.Bool():
 		cs.class = "lzw-code-level"
 		early := r.Intn(2)
